@@ -3,6 +3,7 @@ sam.Reader: the reader's lines are the lines of the input, for LF and CRLF line 
 a final newline.  Core only.
 -/
 import Hts.Lemmas.SamSplit
+import Hts.Spec.SamLine
 namespace Hts.Model.SamText
 
 /-- a line end: `\r\n` or `\n` -/
@@ -139,5 +140,51 @@ theorem splitHeader_spec (hls : List Bytes) (body : Bytes)
       rw [ih (fun x hx => hl x (List.mem_cons_of_mem _ hx)) fuel (acc ++ l ++ [10]) (by simp at hf; omega)
         (fun _ _ => by simp)]
       simp [headerText]
+
+/-! ### the reader's lines are the specification's lines, for every input -/
+
+open Hts.Spec.SamLine (dropCR linesFrom textLines)
+
+theorem dropCR_eq_stripCR : ∀ l : Bytes, dropCR l = stripCR l
+  | [] => by simp [dropCR, stripCR]
+  | [c] => by
+    by_cases h : c = 13 <;> simp [dropCR, stripCR, h]
+  | c :: d :: rest => by
+    have ih := dropCR_eq_stripCR (d :: rest)
+    simp only [dropCR, ih, stripCR, List.getLast?_cons_cons]
+    split <;> simp [List.dropLast]
+
+theorem linesFrom_spec : ∀ (s cur : Bytes), (∀ c ∈ cur, c ≠ 10) →
+    linesFrom s cur = (readerLines (cur ++ s)).map stripCR := by
+  intro s
+  induction s with
+  | nil =>
+    intro cur hc
+    simp only [linesFrom, List.append_nil]
+    cases cur with
+    | nil => simp [readerLines_nil]
+    | cons x xs => simp [readerLines_single (x :: xs) hc (by simp), dropCR_eq_stripCR]
+  | cons c rest ih =>
+    intro cur hc
+    simp only [linesFrom]
+    by_cases h : c = 10
+    · subst h
+      simp only [if_true, readerLines_append cur rest hc, List.map_cons, dropCR_eq_stripCR]
+      rw [ih [] (by simp)]
+      simp
+    · simp only [h, if_false]
+      rw [ih (cur ++ [c]) (by
+        intro x hx
+        simp only [List.mem_append, List.mem_singleton] at hx
+        rcases hx with hx | rfl
+        · exact hc x hx
+        · exact h)]
+      simp
+
+/-- the lines the reader parses are the lines of the text, for every input -/
+theorem readerLines_textLines (input : Bytes) : (readerLines input).map stripCR = textLines input := by
+  unfold textLines
+  rw [linesFrom_spec input [] (by simp)]
+  simp
 
 end Hts.Model.SamText
